@@ -40,6 +40,7 @@ type Config struct {
 	N   int    // validators (<= 10: the dev accounts)
 	L   uint32 // epoch length
 	MBP uint64 // max block proposers parameter (PoA threshold base); usually = N
+	F   uint32 `json:"F,omitempty"` // forkConfig.FINALITY: the height from which the engine counts votes (0 = from genesis)
 }
 
 type Sim struct {
@@ -54,7 +55,7 @@ type Sim struct {
 func NewSim(cfg Config) *Sim {
 	thor.SetConfig(thor.Config{EpochLength: cfg.L})
 	fc := thor.NoFork
-	fc.FINALITY = 0
+	fc.FINALITY = cfg.F
 	s := &Sim{Cfg: cfg, Accounts: genesis.DevAccounts()[:cfg.N], FC: &fc, Blocks: map[thor.Bytes32]*block.Block{}}
 	bal, _ := new(big.Int).SetString("1000000000000000000000000000", 10)
 	var auth []genesis.Authority
@@ -202,15 +203,26 @@ func (n *Node) addAndCommit(b *block.Block, parent *chain.BlockSummary, conflict
 	if _, err := stage.Commit(); err != nil {
 		return 0, err
 	}
-	becomeBest, err := n.Engine.Select(h, conflicts)
-	if err != nil {
-		return 0, fmt.Errorf("bft select: %w", err)
+	// node.commitBlock: the engine decides the best block only when both blocks are at or after fork FINALITY, and
+	// CommitBlock is called only for blocks at or after it
+	F := n.Sim.FC.FINALITY
+	prevBest := n.Repo.BestBlockSummary().Header
+	var becomeBest bool
+	if h.Number() >= F && prevBest.Number() >= F {
+		becomeBest, err = n.Engine.Select(h, conflicts)
+		if err != nil {
+			return 0, fmt.Errorf("bft select: %w", err)
+		}
+	} else {
+		becomeBest = h.BetterThan(prevBest)
 	}
 	if err := n.Repo.AddBlock(b, nil, conflicts, becomeBest); err != nil {
 		return 0, fmt.Errorf("add block: %w", err)
 	}
-	if err := n.Engine.CommitBlock(h, conflicts, packing); err != nil {
-		return CodeCommitErr + ErrClass(err), nil
+	if h.Number() >= F {
+		if err := n.Engine.CommitBlock(h, conflicts, packing); err != nil {
+			return CodeCommitErr + ErrClass(err), nil
+		}
 	}
 	return CodeOK, nil
 }
@@ -261,9 +273,14 @@ func (n *Node) Propose(parentID thor.Bytes32, totalScore uint64, salt uint64) (*
 	if err != nil {
 		return nil, 0, "", err
 	}
-	v, verr := n.Engine.ShouldVote(parentID)
-	if verr != nil {
-		return nil, CodeNoVote, Vote(v, verr), nil // proposeAndCommit returns "get vote" error: no block
+	// packer_loop.go: ShouldVote is asked only for a block at or after fork FINALITY
+	var v bool
+	if parent.Header.Number()+1 >= n.Sim.FC.FINALITY {
+		var verr error
+		v, verr = n.Engine.ShouldVote(parentID)
+		if verr != nil {
+			return nil, CodeNoVote, Vote(v, verr), nil // proposeAndCommit returns "get vote" error: no block
+		}
 	}
 	b := n.Sim.MakeBlock(parent.Header, n.Master, v, totalScore, salt)
 	conflicts, err := n.Repo.ScanConflicts(b.Header().Number())
